@@ -4,6 +4,7 @@ mod bridge;
 mod dev;
 mod e3;
 mod engine;
+mod frun;
 mod hist;
 mod iterprog;
 mod model;
